@@ -42,6 +42,14 @@ def run(chk):
             chk.violation(fp, msg, {"kind": "monitor", "monitor": fp, "scenario": sc, "log": log, "outcome": outcome})
         items.append(ld.coq_lifecycle_item(sc, log, outcome))
         owners.append(sc)
+    # real stop signals, delivered twice (the second one while the producers are being finalised), in sub-processes
+    for disp in ("backtesting", "realtime"):
+        for signame in ("SIGINT", "SIGTERM"):
+            chk.count("signal_probes")
+            for fp, msg in ld.signal_probe(disp, signame):
+                if not any(v[0] == fp for v in chk.violations):
+                    chk.violation(fp, msg, {"kind": "monitor", "monitor": fp, "dispatcher": disp, "signal": signame,
+                                            "how_to_replay": f"harness.lifecycle_driver.signal_probe({disp!r}, {signame!r})"})
     res = common.coq_eval_sharded("c14_life", ld.L_HEADER, items, per_file=150) if items else []
     bad = [(sc, r) for sc, r in zip(owners, res) if r != "true"]
     chk.count("lifecycle_model_agree", len(res) - len(bad))
